@@ -228,7 +228,7 @@ func failingExpr(r *Rng) string {
 	}
 }
 
-var histKeyPool = []string{"a", "ab", "abc", "k1", "k2", "k3", "k10", "K1", "AB", "10", "7", "x-y", "b", "zz", "m_1", "k001", "k002"}
+var histKeyPool = []string{"", "a", "ab", "abc", "k1", "k2", "k3", "k10", "K1", "AB", "10", "7", "x-y", "b", "zz", "m_1", "k001", "k002"}
 var histValPool = []string{"v", "v1", "v2", "V", "hello", "Hello", "12", "0", "5", "", "x y", "val_a", "k1", "a-b", "1000"}
 
 func genHistPair(r *Rng, withValue bool) HistPair {
